@@ -108,8 +108,10 @@ async fn verify_recovered(ctx: &mut Ctx, w: &mut World, id: &str, what: &str) ->
 pub async fn crash_history(ctx: &mut Ctx, root: &std::path::Path, tag: &str) {
     let cfg = Cfg { nb: 1, segsize: 128 * 1024, compression: ctx.rng.chance(1, 2), sync_ms: 5 };
     let mut w = World::new(ctx, root, cfg, tag);
-    w.hist.push(format!("st open nb=1 seg={} c={}", w.cfg.segsize, w.cfg.compression as u8));
+    let op = format!("st open nb=1 seg={} c={}", w.cfg.segsize, w.cfg.compression as u8);
+    w.hist.push(op.clone());
     match open_db(&w.dir, &w.cfg) { Ok(db) => w.db = Some(db), Err(e) => { ctx.oracle_fail(&format!("C05:{}", w.key), &format!("open failed: {e}"), &w.hist); return; } }
+    ctx.emit(&op, "ok");
     let ntx = if ctx.rng.chance(1, 2) { ctx.rng.range(4, 14) } else { ctx.rng.range(20, 45) };
     // per accepted tx: (spec before it, start offset, segment id)
     let mut marks: Vec<(Spec, u64, u32, Spec, u16)> = vec![];
@@ -120,13 +122,12 @@ pub async fn crash_history(ctx: &mut Ctx, root: &std::path::Path, tag: &str) {
         let before = w.spec.clone();
         let nb = w.spec.txs.len();
         let seg_before = segment_dirs(&w.dir, 0).last().map(|x| x.0).unwrap_or(0);
-        let op = w.op_of_tx(&tx); w.hist.push(op);
-        let res = tokio::time::timeout(APPEND_TIMEOUT, w.db.as_ref().unwrap().append_events(w.to_transaction(&tx))).await;
-        if let Ok(Ok(r)) = res {
-            if w.spec.append(&tx, 1, w.cfg.segsize).is_err() || w.spec.txs.len() != nb + 1 { return; /* divergence is reported by the store family */ }
+        let line = do_append(ctx, &mut w, &tx).await;
+        if line.starts_with("ok") && w.spec.txs.len() == nb + 1 {
+            let first_off: u64 = line.split("offs=").nth(1).and_then(|x| x.split(',').next()).and_then(|x| x.parse().ok()).unwrap_or(0);
             let seg_after = segment_dirs(&w.dir, 0).last().map(|x| x.0).unwrap_or(0);
             if seg_after != seg_before { rollovers.push(seg_before); }
-            marks.push((before, r.offsets[0], seg_after, w.spec.clone(), tx.pid));
+            marks.push((before, first_off, seg_after, w.spec.clone(), tx.pid));
         }
     }
     if let Some(db) = w.db.take() { db.shutdown().await; drop(db); }
@@ -164,6 +165,9 @@ pub async fn crash_history(ctx: &mut Ctx, root: &std::path::Path, tag: &str) {
                 pkeys: w.pkeys.clone(), next_event_idx: w.next_event_idx + 1000, hist: w.hist.clone(), key: w.key.clone(), acked: vec![] };
             let what = format!("crash with the live segment cut at byte {cut} (transaction starts at {start}, written end {end})");
             w2.hist.push(format!("st crash seg={live_id} cut={cut}"));
+            // zeroing a tail that already is zero changes nothing: for the model the cut is then at the record's end
+            let eff = bounds.iter().find(|(o, l)| *o < cut && cut < o + *l as u64 && bytes[cut as usize..(o + *l as u64) as usize].iter().all(|x| *x == 0)).map(|(o, l)| o + *l as u64).unwrap_or(cut);
+            ctx.emit(&format!("st crash seg={live_id} cut={eff}"), "ok");
             ctx.stat("crash_cuts");
             ctx.stat(if bounds.iter().any(|(o, _)| *o == cut) { "cut_at_record_boundary" } else { "cut_inside_record" });
             match open_db(&cdir, &w2.cfg) {
@@ -177,6 +181,7 @@ pub async fn crash_history(ctx: &mut Ctx, root: &std::path::Path, tag: &str) {
                 Err(e) => { let mut h = w2.hist.clone(); h.push(format!("# {what}")); ctx.oracle_fail(&format!("C05:{}", w.key), &format!("{what}: reopening failed: {e}"), &h); }
             }
             if let Some(db) = w2.db.take() { db.shutdown().await; }
+            ctx.emit("st restore", "ok");
             let _ = std::fs::remove_dir_all(&cdir);
         }
     }
@@ -199,12 +204,14 @@ pub async fn crash_history(ctx: &mut Ctx, root: &std::path::Path, tag: &str) {
                     pkeys: w.pkeys.clone(), next_event_idx: w.next_event_idx + 1000, hist: w.hist.clone(), key: w.key.clone(), acked: vec![] };
                 let what = format!("crash during rollover: sealed segment {seg} with {file} {}", match v { None => "absent".to_string(), Some(n) => format!("cut to {n} of {len} bytes") });
                 w2.hist.push(format!("st idxcut seg={seg} file={file} len={v:?}"));
+                ctx.emit(&format!("st idxcut seg={seg} file={file} len={}", v.map(|x| x.to_string()).unwrap_or("absent".into())), "ok");
                 ctx.stat("index_file_variants");
                 match open_db(&cdir, &w2.cfg) {
                     Ok(db) => { w2.db = Some(db); ctx.id_override = Some("C06".into()); if verify_recovered(ctx, &mut w2, "C06", &what).await { ctx.stat("index_variant_recovered_ok"); } ctx.id_override = None; }
                     Err(e) => { let mut h = w2.hist.clone(); h.push(format!("# {what}")); ctx.oracle_fail(&format!("C06:{}", w.key), &format!("{what}: reopening failed: {e}"), &h); }
                 }
                 if let Some(db) = w2.db.take() { db.shutdown().await; }
+                ctx.emit("st restore", "ok");
                 let _ = std::fs::remove_dir_all(&cdir);
             }
         }
@@ -225,8 +232,10 @@ pub fn run_crash(ctx: &mut Ctx) {
 pub async fn space_history(ctx: &mut Ctx, root: &std::path::Path, tag: &str) {
     let cfg = Cfg { nb: 1, segsize: 128 * 1024, compression: ctx.rng.chance(3, 4), sync_ms: 5 };
     let mut w = World::new(ctx, root, cfg, tag);
-    w.hist.push(format!("st open nb=1 seg={} c={}", w.cfg.segsize, w.cfg.compression as u8));
+    let op = format!("st open nb=1 seg={} c={}", w.cfg.segsize, w.cfg.compression as u8);
+    w.hist.push(op.clone());
     match open_db(&w.dir, &w.cfg) { Ok(db) => w.db = Some(db), Err(_) => return };
+    ctx.emit(&op, "ok");
     let pk_idx = 0usize; let pkey = w.pkeys[pk_idx]; let pid = w.pid_of(&pkey);
     let mk = |w: &mut World, ctx: &mut Ctx, plen: usize, compressible: bool| -> GenTx {
         let idx = w.next_event_idx; w.next_event_idx += 1;
@@ -268,15 +277,10 @@ pub async fn space_history(ctx: &mut Ctx, root: &std::path::Path, tag: &str) {
         if w.cfg.compression && ctx.rng.chance(1, 2) {
             let big = w.cfg.segsize + 1000; let tx = mk(&mut w, ctx, big, true);
             ctx.stat("oversize_compressible_appends");
-            // reference model: accepted iff it fits an empty segment by its STORED size (C19)
-            let before = w.spec.clone();
-            let res = tokio::time::timeout(APPEND_TIMEOUT, w.db.as_ref().unwrap().append_events(w.to_transaction(&tx))).await;
-            w.hist.push(w.op_of_tx(&tx));
-            match res {
-                Ok(Ok(_)) => { w.spec = before; let mut s2 = w.spec.clone(); let big = 10 * w.cfg.segsize; let _ = s2.append(&tx, 1, big); w.spec = s2; }
-                Ok(Err(e)) => { ctx.oracle_fail(&format!("C19:{}", w.key), &format!("append whose stored (compressed) size fits an empty segment was rejected: {}", err_class(&e)), &w.hist); }
-                Err(_) => {}
-            }
+            // reference model: accepted, because it fits an empty segment by its STORED size (C19)
+            let bb = w.spec.txs.len();
+            let line = do_append(ctx, &mut w, &tx).await;
+            if line.starts_with("ok") && w.spec.txs.len() > bb { check_acked_visible(ctx, &mut w, bb, "right after the acknowledgement").await; }
         }
     }
     do_reads(ctx, &mut w, 6).await;
